@@ -208,7 +208,7 @@ def pcacov(C, is_inverse=False, eps=1e-5):
     return U, l
 
 
-def ipca(B, U_a, l_a, n_a, m_a=None, f=1.0, eps=1e-10):
+def ipca(B, U_a, l_a, n_a, m_a=None, f=1.0, eps=1e-10, centre=None):
     r"""
     Perform Incremental PCA on the eigenvectors ``U_a``, eigenvalues ``l_a`` and
     mean vector ``m_a`` (if present) given a new data matrix ``B``.
@@ -237,6 +237,12 @@ def ipca(B, U_a, l_a, n_a, m_a=None, f=1.0, eps=1e-10):
         than the specified eps value, together with their corresponding
         eigenvectors, will be automatically discarded.
 
+    centre : `bool`, optional
+        Whether the model being updated is a centred one. If ``None`` it is
+        inferred from ``m_a``: a missing or all-zero mean means not centred
+        (which is wrong for a centred model whose mean happens to be exactly
+        zero - pass ``True`` in that case).
+
     Returns
     -------
     U (eigenvectors) : ``(n_components, n_dims)`` `ndarray`
@@ -263,7 +269,10 @@ def ipca(B, U_a, l_a, n_a, m_a=None, f=1.0, eps=1e-10):
     # total number of samples
     n = n_a + n_b
 
-    if m_a is not None and not np.all(m_a == 0):
+    if centre is None:
+        # historical convention: an all-zero mean stands for "not centred"
+        centre = m_a is not None and not np.all(m_a == 0)
+    if centre:
         # centred ipca; compute mean of new data
         m_b = np.mean(B, axis=0)
         # compute new mean
